@@ -305,7 +305,7 @@ CHECKS["C03"] = {
                   "server by IP|host name|keepHost, compression, buffered|stream) is sent through the real http.Server + mux + Pipeline + Proxy to a real backend; oracle on what the backend received and on the bytes the client received (framing parsed by hand)",
     "level_note": "free-running real net/http stack: the enumeration is over inputs and configurations, not schedules; no timing in the oracle; HTTP/1.1 only",
     "rule": "choice tree: one ChooseDev per dimension (deviation = non-base value); distinct_nontrivial = distinct (status, framing) outcomes",
-    "bounds": {"quick": "2 deviations", "thorough": "4 deviations"},
+    "bounds": {"quick": "3 deviations", "thorough": "4 deviations"},
     "assumptions": ["every request carries Connection: close so that the end of the framed response is observable"],
     "units": [
         {"name": "httpserver", "pkg": "pkg/object/httpserver", "test": "TestVerifC03", "inject": [LOOPBACK]},
